@@ -243,8 +243,10 @@ ADDED_B10 = {
     "C01": "Added after the tenth batch: C01.15 a key validator of an index signature is offered the numeric reading of a property name (found and guards fix 2a9f262: Record<number, T> accepted only {}); C01.3 also demands the line terminators with their escape sequences, applied after the syntax characters (fix 52cefb4); C01.16 no member of a template union is dropped before the join (fix b01e90f); C01.17 a `.`-based string placeholder is matched with the s flag (fix 42e67ba); C01.18 the prefix / rest boundary of list member lookups is `max >= L`.",
     "C02": "Added after the tenth batch: C02.17 the allOf fast path is not entered when a member has an index signature, because its closed shape forbids every key (found and guards fix f450b29); C02.18 a subschema built from an index signature lists the declared keys (known finding: it does not); C02.19 the printer builds a discriminated union only on a property taken apart by the Required pattern.",
     "C03": "Added after the tenth batch: C03.13 no decision rests on comparing the number of input keys with the number of declared keys; C03.14 validate / parseAfterValidation / reportDecodeError write nothing on `this`.",
+    "C04": "Added after the tenth batch: C04.7 (inter-procedural over the frontend's typed HIR) an Anchor is only built - directly or by a callee - from syntax of the caller's own parameters together with the caller's own file / anchor parameter, never with a file obtained from a lookup or an import resolution (found and guards fix c6410d5: import(\"./m\").NS.X reported against m with offsets of the importing file).",
+    "C05": "Added after the tenth batch: C05.10 the per-key loop of the mapping intersection reads the operand's index signature for a key it does not declare (found and guards fix ec0b14d: X extends X was `no` for {name: string | null} & Record<string, string>).",
     "C07": "Added after the tenth batch: C07.10 a key looked up in the declared properties of an object that may have an index signature consults the signature where the key is missing.",
-    "C08": "Added after the tenth batch: C08.10 every object the intersection constructor builds has no index signature (declared keys would escape it).",
+    "C08": "Added after the tenth batch: C08.10 every object the intersection constructor builds has no index signature (declared keys would escape it); C08.11 the memoising function of named types reaches the declaration extractor only with the scope stack set aside and restored (found and guards fix f1a99b7: type parameters captured names inside other declarations).",
     "C09": "Added after the tenth batch: C09.13 (generalises C09.8) syntax taken out of any record that pairs a syntax field with a location field (13 variants, found by field types) is handed on with a location from that record or the address it was fetched with.",
     "C11": "Added after the tenth batch: C11.6 (= C03.13) strict mode finds undeclared keys by name, never by comparing key counts.",
     "C12": "Added after the tenth batch: a length test of validate() is a rejection reason of its own per direction (too short / too long / exact) and needs its counterpart in the reporter.",
